@@ -1,1 +1,2 @@
+pub mod conc;
 pub mod hist;
